@@ -64,9 +64,9 @@ ITEMS = location_types() + budget_types() + error_types() + [
     dict(src=S, path='fn radix_and_digits', props=P,
          rewrites=[
              (r'rest\.strip_prefix\("(0[xXoObB])"\)\.or_else\(\|\| rest\.strip_prefix\("(0[xXoObB])"\)\)',
-              r'(match str_strip_prefix_str(rest, "\1") { Some(__v) => Some(__v), None => str_strip_prefix_str(rest, "\2") })', 3, 'R8+R18'),
-             (r'rest\.starts_with\("00"\)', 'str_starts_with_str(rest, "00")', 1, 'R8'),
-             (r'&rest\[(\w+)\.\.\]', r'str_slice_from(rest, \1)', 1, 'R8'),
+              r'(match str_strip_prefix_str(rest, "\1") { Some(__v) => Some(__v), None => str_strip_prefix_str(rest, "\2") })', None, 'R8+R18'),
+             (r'rest\.starts_with\("00"\)', 'str_starts_with_str(rest, "00")', None, 'R8'),
+             (r'&rest\[(\w+)\.\.\]', r'str_slice_from(rest, \1)', None, 'R8'),
          ],
          proofs=[dict(at='start', text='''
              let b = rest.spec_bytes();
@@ -87,20 +87,20 @@ ITEMS = location_types() + budget_types() + error_types() + [
 ]
 
 STR_RW = [
-    (r'\bs\.trim\(\)', 'str_trim(s)', 1, 'R8'),
-    (r"\bt\.strip_prefix\('\+'\)", "str_strip_prefix_char(t, '+')", 1, 'R8'),
+    (r'\bs\.trim\(\)', 'str_trim(s)', None, 'R8'),
+    (r"\bt\.strip_prefix\('\+'\)", "str_strip_prefix_char(t, '+')", None, 'R8'),
 ]
 
 def _signed(ty):
     lo, hi = '%s::MIN' % ty, '%s::MAX' % ty
     return dict(src=S, path='fn parse_int_signed', id='parse_int_signed<%s>' % ty, rename='parse_int_signed_%s' % ty, props=P,
         rewrites=STR_RW + [
-            (r"\bt\.strip_prefix\('-'\)", "str_strip_prefix_char(t, '-')", 1, 'R8'),
+            (r"\bt\.strip_prefix\('-'\)", "str_strip_prefix_char(t, '-')", None, 'R8'),
             (r'fn parse_int_signed<T>\(', 'fn parse_int_signed(', 1, 'R9'),
             (r'Result<T, Error>', 'Result<%s, Error>' % ty, 1, 'R9'),
             (r'where\s+T: TryFrom<i128>,', '', 1, 'R9'),
             (r'\bT::try_from\b', ('i128_try_from_i128' if ty == 'i128' else '%s::try_from' % ty), 2, 'R9'),
-            (r'\bmag\.try_into\(\)', 'i128::try_from(mag)', 1, 'R19'),
+            (r'\bmag\.try_into\(\)', 'i128::try_from(mag)', None, 'R19'),
         ],
         ensures=[('exact_or_error_never_wrapped', '''match r {
               Ok(v) => int_spec(spec_trim(s.spec_bytes()), legacy_octal) == Some(v as int),
@@ -112,7 +112,7 @@ def _unsigned(ty):
     hi = '%s::MAX' % ty
     return dict(src=S, path='fn parse_int_unsigned', id='parse_int_unsigned<%s>' % ty, rename='parse_int_unsigned_%s' % ty, props=P,
         rewrites=STR_RW + [
-            (r"\bt\.starts_with\('-'\)", "str_starts_with_char(t, '-')", 1, 'R8'),
+            (r"\bt\.starts_with\('-'\)", "str_starts_with_char(t, '-')", None, 'R8'),
             (r'fn parse_int_unsigned<T>\(', 'fn parse_int_unsigned(', 1, 'R9'),
             (r'Result<T, Error>', 'Result<%s, Error>' % ty, 1, 'R9'),
             (r'where\s+T: TryFrom<u128>,', '', 1, 'R9'),
